@@ -154,3 +154,49 @@ def row_body(chk) -> RowBody:
         else:
             (rb.tail if seen_piece else rb.head).append(p)
     return rb
+
+
+class FrameDataPlan:
+    """How LogicalFile._make_multi_frame_data gets the data wrapper of one frame for one write."""
+
+    def __init__(self):
+        self.func = None        # LogicalFile._make_multi_frame_data
+        self.summ = None        # its summary with the private helpers of the logical file inlined
+        self.ctor = None        # the MultiFrameData(...) term
+        self.wrapper = None     # the term handed to it as the data wrapper
+        self.alts = []          # [(conditions, call term, callee FuncInfo or None, {callee parameter: term})]
+
+
+def frame_data_plan(chk) -> FrameDataPlan:
+    from ..terms import ctor_calls
+    cached = getattr(chk, "_frame_data_plan", None)
+    if cached is not None:
+        return cached
+    ix, te = chk.ix, chk.terms
+    mk = ix.get_method("LogicalFile", "_make_multi_frame_data")
+    if mk is None:
+        raise AnalysisError("LogicalFile._make_multi_frame_data not found")
+    chk.consult(mk)
+    mfd = ix.get_class("MultiFrameData")
+    sdw = ix.get_class("SourceDataWrapper")
+    p = FrameDataPlan()
+    p.func = mk
+    # (private helpers of the logical file are looked through: the wrapper may be made in one)
+    p.summ = te.inline(mk, 2, stop=lambda g: g.cls is not mk.cls or g.name == "__init__")
+    ctor = ctor_calls(p.summ, mfd)
+    if len(ctor) != 1:
+        raise AnalysisError("MultiFrameData construction not found in _make_multi_frame_data")
+    p.ctor = ctor[0]
+    minit = mfd.lookup("__init__")
+    amap = te._bind_args(minit, p.ctor) or {}
+    p.wrapper = amap.get(minit.param_names[2]) if len(minit.param_names) > 2 else None
+    if p.wrapper is None:
+        raise AnalysisError("MultiFrameData is built without a data wrapper argument")
+    for conds, alt in alternatives(p.wrapper):
+        tg = list(p.summ.calls.get(alt, ())) if alt[0] == "call" and alt in p.summ.precise else []
+        made = [t for t in tg if t.cls is not None and (t.cls is sdw or sdw in t.cls.mro())
+                and ((t.name == "__init__" and alt[1][0] != "attr") or t.kind in ("staticmethod", "classmethod"))]
+        callee = made[0] if len(made) == 1 else None
+        p.alts.append((conds, alt, callee, (te._bind_args(callee, alt) or {}) if callee is not None else {}))
+    chk._frame_data_plan = p
+    return p
